@@ -25,7 +25,12 @@ def case_dir():
     return d
 
 
+EXTRA_ENGINES = {}
+
+
 def _engine(name):
+    if name in EXTRA_ENGINES:
+        return EXTRA_ENGINES[name]
     if name == "bufworld":
         from .bufworld import BufWorld
         return BufWorld
